@@ -25,6 +25,9 @@
 (*   U8big = U + 00110000..7FFFFFFF        U8huge = U + 80000000..FFFFFFFF *)
 (*   YAML TAG  directive names      L  a word of MaxKey characters         *)
 (*   DBIG  a run of 4301 digits (CPython refuses int() of > 4300 digits)   *)
+(*   NX NB NO ND NU  long numbers (0x / 0b / 0o + 40 digits, 40 decimal     *)
+(*   digits, 20 x digit-underscore): ordinary characters for the scanner,   *)
+(*   long lexemes for whatever looks at plain scalars after it             *)
 (*   P1 = %41   P2a = %C3   P2b = %A9   Pbad = %FF   (URI escapes)         *)
 (*                                                                         *)
 (* POSITIONS.  rd = [p, i, l, c, wk]: p symbols consumed, i/l/c the        *)
@@ -65,6 +68,7 @@ CONSTANTS Focuses,      \* names of the focus configurations (rows of FocusTable
 (*   p*                   C06: portable alphabets (LoadPipe.tla)           *)
 (*   file                 inputs come from a file (LoadPipe.tla)           *)
 (***************************************************************************)
+NumMacro == {"NX", "NB", "NO", "ND", "NU"}     \* long numbers: 0x / 0b / 0o + 40 digits, 40 decimal digits, 1_1_1_...
 Structural == {"w", "sp", "lf", "-", "?", ":", ",", "[", "]", "{", "}", "#"}
 FocusTable == [
   struct   |-> [p |-> <<>>, n |-> 4, m |-> 5, a |-> Structural],
@@ -77,14 +81,15 @@ FocusTable == [
   escape   |-> [p |-> <<"dq", "bs">>, n |-> 2, m |-> 3,
                 a |-> {"xc", "uc", "Uc", "0", "1", "h", "a", "X2", "U4", "U4s", "U8", "U8s", "U8big", "U8huge", "dq", "w", "lf",
                        "sp", "/", "_", "bs", "tab", "u", "nd", "9"}],
-  hex      |-> [p |-> <<"dq", "bs">>, n |-> 4, m |-> 5, a |-> {"xc", "uc", "Uc", "0", "1", "h", "dq"}],
+  hex      |-> [p |-> <<"dq", "bs">>, n |-> 4, m |-> 5, a |-> {"xc", "uc", "0", "1", "h", "dq", "-", "+", "_", "sp", "nd"}],
   squote   |-> [p |-> <<"'">>, n |-> 3, m |-> 5, a |-> {"w", "sp", "lf", "dq", "bs", "'", ".", "-", "cr"}],
-  yamldir  |-> [p |-> <<"%", "YAML", "sp">>, n |-> 3, m |-> 4, a |-> {"1", "2", "0", ".", "sp", "lf", "#", "w", "DBIG", "u", "nd"}],
+  yamldir  |-> [p |-> <<"%", "YAML", "sp">>, n |-> 3, m |-> 4, a |-> {"1", "2", "0", ".", "sp", "lf", "#", "w", "DBIG", "u", "nd", "-", "+", "_"}],
   dir      |-> [p |-> <<"%">>, n |-> 3, m |-> 4, a |-> {"YAML", "TAG", "w", "sp", "lf", "!", "1", ".", "-", "#", "P1", "u", "tab"}],
-  tagdir   |-> [p |-> <<"%", "TAG", "sp", "!">>, n |-> 3, m |-> 4, a |-> {"w", "!", "sp", "lf", "%", "P1", "Pbad", "1", "h", "#"}],
+  tagdir   |-> [p |-> <<"%", "TAG", "sp", "!">>, n |-> 3, m |-> 4, a |-> {"w", "!", "sp", "lf", "%", "P1", "Pbad", "1", "h", "#", "-", "+", "_", "nd"}],
   tag      |-> [p |-> <<"!">>, n |-> 3, m |-> 4,
-                a |-> {"w", "!", "sp", "lf", "%", "P1", "P2a", "P2b", "Pbad", "<", ">", "tab", ",", "1", "a"}],
-  verbatim |-> [p |-> <<"!", "<">>, n |-> 3, m |-> 4, a |-> {"w", "!", "sp", ">", "P1", "P2a", "P2b", "Pbad", "up", "lf", "{", "u"}],
+                a |-> {"w", "!", "sp", "lf", "%", "P1", "P2a", "P2b", "Pbad", "<", ">", "tab", ",", "1", "a", "-", "+", "_", "nd"}],
+  verbatim |-> [p |-> <<"!", "<">>, n |-> 3, m |-> 4,
+                a |-> {"w", "!", "sp", ">", "P1", "P2a", "P2b", "Pbad", "up", "lf", "{", "u", "%", "1", "-", "+", "_", "nd"}],
   literal  |-> [p |-> <<"|">>, n |-> 4, m |-> 5, a |-> {"w", "sp", "lf", "-", "+", "1", "nd"}],
   folded   |-> [p |-> <<">">>, n |-> 3, m |-> 5, a |-> {"w", "sp", "lf", "2", "0", "#", "tab", "cr", "ls"}],
   seqlit   |-> [p |-> <<"-", "sp", "|">>, n |-> 4, m |-> 5, a |-> {"w", "sp", "lf", "1", "nel", "-", ":"}],
@@ -94,6 +99,8 @@ FocusTable == [
   longkey  |-> [p |-> <<>>, n |-> 4, m |-> 5, a |-> {"L", "w", ":", "sp", "lf", "?", "["}],
   flowkeys |-> [p |-> <<"[">>, n |-> 3, m |-> 4, a |-> {"w", ":", ",", "?", "]", "[", "{", "}", "lf", "sp"}],
   cont     |-> [p |-> <<"w", "lf", "sp">>, n |-> 4, m |-> 5, a |-> {"-", ".", "w", "sp", "lf", ":", "#"}],
+  indentless |-> [p |-> <<"w", ":", "lf", "-">>, n |-> 4, m |-> 6, a |-> {"w", "sp", "lf", "-", ":", "?"}],
+  numbers  |-> [p |-> <<>>, n |-> 2, m |-> 3, a |-> {"NX", "NB", "NO", "ND", "NU", "w", "-", "_", ":", ".", "sp", "lf", "[", "h"}],
   dstruct  |-> [p |-> <<>>, n |-> 3, m |-> 4, a |-> Structural],
   dindic   |-> [p |-> <<>>, n |-> 3, m |-> 4, a |-> {"&", "*", "!", "|", ">", "'", "dq", "%", "@", "w", "lf", ".", "sp"}],
   pstruct  |-> [p |-> <<>>, n |-> 3, m |-> 4, a |-> Structural],
@@ -116,11 +123,15 @@ FocusTable == [
   pmapblock |-> [p |-> <<"w", ":", "lf">>, n |-> 3, m |-> 4, a |-> {"w", "sp", "lf", ">", "|", "-", ":", "3"}],
   panchors |-> [p |-> <<>>, n |-> 3, m |-> 4, a |-> {"&", "*", "w", "sp", "lf", ":", "-", "1", ",", "[", "]"}],
   pcont    |-> [p |-> <<"w", "lf", "sp">>, n |-> 3, m |-> 5, a |-> {"-", ".", "w", "sp", "lf", ":", "#"}],
+  ptagdflt |-> [p |-> <<"%", "TAG", "sp", "!", "sp", "w", ":", "lf", "-", "-", "-", "sp", "!", "w", "lf", "-", "-", "-", "sp">>, n |-> 3, m |-> 4,
+                a |-> {"!", "w", "sp", "lf", ":"}],
+  pindentless |-> [p |-> <<"w", ":", "lf", "-">>, n |-> 4, m |-> 6, a |-> {"w", "sp", "lf", "-", ":"}],
   pindic   |-> [p |-> <<>>, n |-> 3, m |-> 3, a |-> {"&", "*", "!", "|", ">", "'", "dq", "%", "@", "bt", "w", "lf", ".", ":", "sp", "-"}],
   file     |-> [p |-> <<>>, n |-> 0, m |-> 0, a |-> {}]]
 
-\* a run of 4301 digits is only followed where the scanner reads a number as a whole (see design_parts/C03.md)
-ASSUME \A f \in Focuses : "DBIG" \in FocusTable[f].a => FocusTable[f].a \cap {"bs", "|", ">", "%", "!"} = {}
+\* a run of 4301 digits is only followed where the scanner reads a number as a whole, a long number only where it is a
+\* run of ordinary characters (see design_parts/C03.md)
+ASSUME \A f \in Focuses : FocusTable[f].a \cap ({"DBIG"} \cup NumMacro) # {} => FocusTable[f].a \cap {"bs", "|", ">", "%", "!"} = {}
 
 VARIABLES focus, inp, pc, rd, done, flow, toks, taken, indent, indents, ask, keys, out, res, err, mon, path
 vars == <<focus, inp, pc, rd, done, flow, toks, taken, indent, indents, ask, keys, out, res, err, mon, path>>
@@ -131,7 +142,7 @@ MaxLen == IF Thorough THEN FocusTable[focus].m ELSE FocusTable[focus].n
 (***************************************************************************)
 (* alphabet classes (the literal character sets of scanner.py)             *)
 (***************************************************************************)
-AlnumMacro == {"X2", "U4", "U4s", "U8", "U8s", "U8big", "U8huge", "YAML", "TAG", "L", "DBIG"}
+AlnumMacro == {"X2", "U4", "U4s", "U8", "U8s", "U8big", "U8huge", "YAML", "TAG", "L", "DBIG"} \cup NumMacro
 PMacro  == {"P1", "P2a", "P2b", "Pbad"}
 Letters == {"w", "h", "a", "n", "xc", "uc", "Uc"}
 Digit1  == {"0", "1", "2", "3", "4", "5", "6", "7", "8", "9"}
@@ -155,6 +166,7 @@ EscMacro == {"X2", "U4", "U4s", "U8", "U8s", "U8big", "U8huge"}
 
 W(s) == CASE s = "X2" -> 3 [] s \in {"U4", "U4s"} -> 5 [] s \in {"U8", "U8s", "U8big", "U8huge"} -> 9
           [] s = "YAML" -> 4 [] s = "TAG" -> 3 [] s \in PMacro -> 3 [] s = "L" -> MaxKey [] s = "DBIG" -> 4301
+          [] s \in {"NX", "NB", "NO"} -> 42 [] s \in {"ND", "NU"} -> 40
           [] OTHER -> 1
 C(s) == IF s \in PMacro THEN "%" ELSE s                       \* first character, for comparisons with an indicator
 
